@@ -170,7 +170,7 @@ def expand_extract(ex, canary=False):
     src = read_repo(ex.file)
     m = mask(src)
     fired = []
-    if ex.kind in ('struct', 'enum'):
+    if ex.kind in ('struct', 'enum', 'trait'):
         loc = rsrc.find_type(src, ex.kind, ex.name, m)
         orig = src[loc['start']:loc['body_close'] + 1]
         text = orig
